@@ -3374,11 +3374,12 @@ impl Zeroconf {
                     continue;
                 }
 
-                add_answer_of_service(
+                add_answer_of_service_with_host(
                     &mut out,
                     &msg,
                     question.entry_name(),
                     service,
+                    dns_registry.resolve_name(service.get_hostname()),
                     qtype,
                     intf_addrs,
                 );
@@ -4048,12 +4049,37 @@ impl Zeroconf {
     }
 }
 
-/// Adds one or more answers of a service for incoming msg and RR entry name.
+/// Adds one or more answers of a service for incoming msg and RR entry name,
+/// with the host name the service was registered with.
+#[cfg(test)]
 fn add_answer_of_service(
     out: &mut DnsOutgoing,
     msg: &DnsIncoming,
     entry_name: &str,
     service: &ServiceInfo,
+    qtype: RRType,
+    intf_addrs: Vec<IpAddr>,
+) {
+    add_answer_of_service_with_host(
+        out,
+        msg,
+        entry_name,
+        service,
+        service.get_hostname(),
+        qtype,
+        intf_addrs,
+    );
+}
+
+/// Adds one or more answers of a service for incoming msg and RR entry name,
+/// with `hostname` as the host of the service: its current host name, which
+/// is not `service.get_hostname()` any more after a conflict renamed it.
+fn add_answer_of_service_with_host(
+    out: &mut DnsOutgoing,
+    msg: &DnsIncoming,
+    entry_name: &str,
+    service: &ServiceInfo,
+    hostname: &str,
     qtype: RRType,
     intf_addrs: Vec<IpAddr>,
 ) {
@@ -4067,7 +4093,7 @@ fn add_answer_of_service(
                 service.get_priority(),
                 service.get_weight(),
                 service.get_port(),
-                service.get_hostname().to_string(),
+                hostname.to_string(),
             ),
         );
     }
@@ -4087,7 +4113,7 @@ fn add_answer_of_service(
     if qtype == RRType::SRV {
         for address in intf_addrs {
             out.add_additional_answer(DnsAddress::new(
-                service.get_hostname(),
+                hostname,
                 ip_address_rr_type(&address),
                 CLASS_IN | CLASS_CACHE_FLUSH,
                 service.get_host_ttl(),
